@@ -1,14 +1,17 @@
-\* quick exhaustive: one fewer size
+\* quick exhaustive: one fewer size; spellings and faults not crossed with one another
 CONSTANTS
   Logs = {"L1", "L2"}
   OtherLogs = {"LX"}
   MaxSize = 3
   ForkAt = 1
   Proofs = {"correct", "othersizes", "truncated", "empty"}
+  Aliases = {"bits", "nl", "nopad", "urlsafe", "space"}
+  CoverAliases = {"bits"}
+  CoverFaultProofs = {"correct"}
   Depth = 0
 INIT Init
-NEXT Next
+NEXT UncrossedNext
 VIEW StateView
-INVARIANTS TypeOK OnlySigned
-PROPERTIES ForwardOnly RefusedNoChange Isolated CosignedIsHeldAct
+INVARIANTS TypeOK OnlySigned CosignedHeld
+PROPERTIES ForwardOnly RefusedNoChange Isolated CosignedIsHeldAct CosignedForward FaultedStoreRefused StorageErrorIsError OneHistoryPerLog
 CHECK_DEADLOCK FALSE
